@@ -41,7 +41,7 @@ type ErrRec struct {
 	HasRule         bool
 	Inner           string
 	Kind            string // own, sentinel, panicerr, other
-	IsPanic         bool   // position not pinned
+	IsPanic         bool   // the error made from a recovered panic
 	AltLine, AltCol int    // alternative accepted position (offset-0 ambiguity), 0 = none
 }
 
